@@ -19,7 +19,7 @@ Table(d) == LET n == Rnd(3..7) IN [j \in 1..n |-> Rec(Rnd(1..40), j)]
 NInit == 6
 Init == hist = <<>>
 Sim == /\ DEPTH > 0 /\ Len(hist) < LEN
-       /\ IF hist = <<>> THEN hist' = <<[o |-> "reset", mode |-> MODE, query_timeout |-> 60, peer_timeout |-> 2, par |-> Rnd({1, 2, 3, 3})]>>
+       /\ IF hist = <<>> THEN hist' = <<[o |-> "reset", mode |-> MODE, query_timeout |-> 60, peer_timeout |-> 2, par |-> Rnd({1, 2, 3, 3}), cosim |-> TRUE]>>
           ELSE IF Len(hist) <= NInit THEN hist' = Append(hist, IF Rnd({1, 2, 3}) = 1 THEN [o |-> "established", rec |-> Rec(Len(hist), 0), dir |-> "Out"]
                                                                  ELSE [o |-> "add_enr", rec |-> Rec(Len(hist), 0)])
           ELSE IF Len(hist) = NInit + 1 THEN hist' = Append(hist, IF Rnd({1, 2, 3}) = 1
